@@ -50,6 +50,18 @@ pub fn h_shim_be<S: Src>(s: &mut S) {
     if n >= 4 { vassert!(s, matches!(&r4, Ok((rem, v)) if *v == be32(i, 0) && is_suffix(i, rem, 4)), "shim be_u32: big-endian value and consumption"); }
     else { vassert!(s, needed_size(&r4) == Some(4 - n), "shim be_u32: Incomplete(Size(4 - len))"); }
 }
+pub fn h_shim_be64<S: Src>(s: &mut S) {
+    use tp::nom::number::streaming::be_u64;
+    let buf: [u8; 10] = s.bytes();
+    let n = s.usize();
+    vassume!(s, n <= 10);
+    let i = &buf[..n];
+    let r: R<u64> = be_u64(i);
+    if n >= 8 {
+        let exp = ((be32(i, 0) as u64) << 32) | (be32(i, 4) as u64);
+        vassert!(s, matches!(&r, Ok((rem, v)) if *v == exp && is_suffix(i, rem, 8)), "shim be_u64: big-endian value and consumption");
+    } else { vassert!(s, needed_size(&r) == Some(8 - n), "shim be_u64: Incomplete(Size(8 - len))"); }
+}
 
 // ---------------------------------------------------------------- length_data_post
 pub fn h_shim_length_data<S: Src, const N: usize>(s: &mut S) {
@@ -330,6 +342,7 @@ harness!(shim_opt_cond, unwind = 6, h_shim_opt_cond);
 harness!(shim_map_parser, unwind = 6, h_shim_map_parser::<_, 5>);
 harness!(shim_take, unwind = 3, h_shim_take::<_, 6>);
 harness!(shim_be, unwind = 6, h_shim_be);
+harness!(shim_be64, unwind = 10, h_shim_be64);
 harness!(shim_length_data, unwind = 5, h_shim_length_data::<_, 6>);
 harness!(shim_complete, unwind = 6, h_shim_complete);
 harness!(shim_many1, unwind = 7, h_shim_many1::<_, 4>);
